@@ -1,2 +1,637 @@
+/-
+  Lemmas about the spawn.c model (`Nq.Spawn`): the generated report texts, the case analysis of
+  `docmd`, the message-id check, the report/slot balance.
+-/
 import Nq.Spawn
 import Nq.Spec.TrustBoundary
+
+namespace Nq.Lemmas.SpawnL
+open Nq Nq.Spawn Nq.Spec.TB Nq.Gen.SpawnTexts
+
+/-- a report body: a status letter followed by NUL-free text -/
+def textOK (t : Bytes) : Bool := (match t with | l :: _ => isLetter l | [] => false) && !t.contains 0
+
+/-- every fixed text of spawn.c / qmail-lspawn.c / qmail-rspawn.c (as extracted from the current
+sources) starts with K, Z or D and contains no NUL -/
+theorem texts_ok :
+    ([E_TOOBIG, E_INUSE, E_NONNUM, E_TOOLONG, E_TOOSHORT, E_NOHOST, E_OPEN, E_FSTAT, E_TYPE, E_OWNER, E_PIPE, E_FORK,
+      L_CRASHED, R_CRASHED, R_SOFT, R_HARD, R_NOOUTPUT].all textOK &&
+     lspawnTexts.all (fun p => textOK p.2) && lspawnLetters.all (fun p => isLetter p.2) && isLetter lspawnDefault) = true := by
+  decide
+
+/-- the refusals for a file that is not a regular file of the queue user are temporary (`Z`) -/
+theorem guard_texts_Z : E_TYPE.head? = some 90 ∧ E_OWNER.head? = some 90 := by decide
+
+/-- the validation cascade of `docmd()` up to (not including) `open_read` -/
+def Checks (st : St) : Prop :=
+  st.delnum < Nq.Gen.auto_spawn ∧ slotUsed st.slots st.delnum = false ∧ badChars true st.messid = false ∧
+  st.messid.length ≤ MESSID_MAX ∧ st.messid.head? ≠ some 0
+
+def popPlan (st : St) : St := { st with plan := st.plan.tail }
+
+/-- complete case analysis of `docmd()` -/
+theorem docmd_cases (st : St) :
+    (∃ t, t ∈ [E_TOOBIG, E_INUSE, E_NONNUM, E_TOOLONG, E_TOOSHORT, E_NOHOST] ∧ docmd st = (st, [.report st.delnum t])) ∨
+    (Checks st ∧ ∃ j, rchrAt st.recip 0 none = some j ∧
+      ((∃ t, docmd st = (popPlan st, [.openRead st.messid.dropLast, .report st.delnum t]) ∧
+          ((st.plan.headD 0 = 1 ∧ t = E_OPEN) ∨ (st.plan.headD 0 = 2 ∧ t = E_FSTAT) ∨
+           ((st.plan.headD 0 = 3 ∨ st.plan.headD 0 = 7 ∨ st.plan.headD 0 = 8) ∧ t = E_TYPE) ∨
+           (st.plan.headD 0 = 4 ∧ t = E_OWNER) ∨ (st.plan.headD 0 = 5 ∧ t = E_PIPE))) ∨
+       (st.plan.headD 0 = 6 ∧ docmd st = (popPlan st, [.openRead st.messid.dropLast,
+          .spawnCall st.delnum st.sender.dropLast st.recip.dropLast j, .report st.delnum E_FORK])) ∨
+       ((st.plan.headD 0 = 0 ∨ st.plan.headD 0 > 8) ∧
+        docmd st = ({ popPlan st with slots := st.slots.set st.delnum (some []) },
+          [.openRead st.messid.dropLast, .spawnCall st.delnum st.sender.dropLast st.recip.dropLast j])))) := by
+  unfold docmd
+  by_cases h1 : st.delnum ≥ Nq.Gen.auto_spawn
+  · left; exact ⟨E_TOOBIG, by simp, by simp (config := {decide := true}) only [Bool.false_eq_true, if_false, if_true, h1, if_true]⟩
+  by_cases h2 : slotUsed st.slots st.delnum = true
+  · left; exact ⟨E_INUSE, by simp, by simp (config := {decide := true}) only [Bool.false_eq_true, if_false, if_true, h1, h2, if_true, if_false]⟩
+  by_cases h3 : badChars true st.messid = true
+  · left; exact ⟨E_NONNUM, by simp, by simp (config := {decide := true}) only [Bool.false_eq_true, if_false, if_true, h1, h2, h3, if_true, if_false]⟩
+  by_cases h4 : st.messid.length > MESSID_MAX
+  · left; exact ⟨E_TOOLONG, by simp, by simp (config := {decide := true}) only [Bool.false_eq_true, if_false, if_true, h1, h2, h3, h4, if_true, if_false]⟩
+  by_cases h5 : st.messid.head? = some 0
+  · left; exact ⟨E_TOOSHORT, by simp, by simp (config := {decide := true}) only [Bool.false_eq_true, if_false, if_true, h1, h2, h3, h4, h5, if_true, if_false]⟩
+  simp only [h1, h2, h3, h4, h5, if_false]
+  cases hj : rchrAt st.recip 0 none with
+  | none => left; exact ⟨E_NOHOST, by simp, rfl⟩
+  | some j =>
+    right
+    refine ⟨⟨by omega, by simpa using h2, by simpa using h3, by omega, h5⟩, j, rfl, ?_⟩
+    simp only [popPlan]
+    by_cases p1 : st.plan.headD 0 = 1
+    · left; exact ⟨E_OPEN, by simp (config := {decide := true}) only [Bool.false_eq_true, if_false, if_true, p1, if_true], Or.inl ⟨p1, rfl⟩⟩
+    by_cases p2 : st.plan.headD 0 = 2
+    · left; exact ⟨E_FSTAT, by simp (config := {decide := true}) only [Bool.false_eq_true, if_false, if_true, p1, p2, if_true, if_false], Or.inr (Or.inl ⟨p2, rfl⟩)⟩
+    by_cases p3 : st.plan.headD 0 = 3 ∨ st.plan.headD 0 = 7 ∨ st.plan.headD 0 = 8
+    · left; exact ⟨E_TYPE, by simp (config := {decide := true}) only [Bool.false_eq_true, if_false, if_true, p1, p2, p3, if_true, if_false], Or.inr (Or.inr (Or.inl ⟨p3, rfl⟩))⟩
+    by_cases p4 : st.plan.headD 0 = 4
+    · left; exact ⟨E_OWNER, by simp (config := {decide := true}) only [Bool.false_eq_true, if_false, if_true, p1, p2, p3, p4, if_true, if_false], Or.inr (Or.inr (Or.inr (Or.inl ⟨p4, rfl⟩)))⟩
+    by_cases p5 : st.plan.headD 0 = 5
+    · left; exact ⟨E_PIPE, by simp (config := {decide := true}) only [Bool.false_eq_true, if_false, if_true, p1, p2, p3, p4, p5, if_true, if_false], Or.inr (Or.inr (Or.inr (Or.inr ⟨p5, rfl⟩)))⟩
+    by_cases p6 : st.plan.headD 0 = 6
+    · right; left; exact ⟨p6, by simp (config := {decide := true}) only [Bool.false_eq_true, if_false, if_true, p1, p2, p3, p4, p5, p6, if_true, if_false]⟩
+    · right; right
+      refine ⟨by omega, by simp (config := {decide := true}) only [Bool.false_eq_true, if_false, if_true, p1, p2, p3, p4, p5, p6, if_false]⟩
+
+/-! ### the message-id check -/
+
+theorem badChars_ok (first : Bool) (m : Bytes) (h0 : ∀ c ∈ m, c ≠ 0) (h : badChars first (m ++ [0]) = false) :
+    (∀ c ∈ m, isDigit c = true ∨ c = 47) ∧ (first = true → ∀ c, m.head? = some c → isDigit c = true) := by
+  induction m generalizing first with
+  | nil => simp
+  | cons c r ih =>
+    have hc : c ≠ 0 := h0 c (by simp)
+    simp only [List.cons_append, badChars, Bool.or_eq_false_iff, Bool.and_eq_false_iff] at h
+    obtain ⟨ha, hb⟩ := h
+    obtain ⟨i1, _⟩ := ih false (fun x hx => h0 x (by simp [hx])) hb
+    have hcne : (c != 0) = true := by simpa using hc
+    constructor
+    · intro x hx
+      rcases List.mem_cons.mp hx with hx | hx
+      · subst hx
+        rcases ha with (ha | ha) | ha
+        · rw [hcne] at ha; cases ha
+        · by_cases h47 : x = 47
+          · exact Or.inr h47
+          · have : (x != 47) = true := by simpa using h47
+            simp [this] at ha
+        · left; simpa using ha
+      · exact i1 x hx
+    · intro hf x hx
+      simp only [List.head?_cons, Option.some.injEq] at hx
+      subst hx
+      rcases ha with (ha | ha) | ha
+      · rw [hcne] at ha; cases ha
+      · simp [hf] at ha
+      · simpa using ha
+
+/-- a message id that passed `docmd`'s checks is a well-formed relative queue file name -/
+theorem okPath_of_checks (m : Bytes) (h0 : ∀ c ∈ m, c ≠ 0) (h1 : badChars true (m ++ [0]) = false)
+    (h2 : (m ++ [0]).length ≤ MESSID_MAX) (h3 : (m ++ [0]).head? ≠ some 0) : okPath m = true := by
+  obtain ⟨a, b⟩ := badChars_ok true m h0 h1
+  cases m with
+  | nil => simp at h3
+  | cons c r =>
+    have hd : isDigit c = true := b rfl c rfl
+    have hlen : (c :: r).length ≤ 99 := by
+      have : MESSID_MAX = 100 := by decide
+      simp only [List.length_append, List.length_cons, List.length_nil] at h2 ⊢
+      omega
+    unfold okPath
+    simp only [List.isEmpty_cons, Bool.not_false, Bool.true_and, hd, Bool.and_true, Bool.and_eq_true,
+      decide_eq_true_eq, List.all_eq_true]
+    refine ⟨hlen, ?_⟩
+    intro x hx
+    rcases a x hx with h | h
+    · simp [h]
+    · simp [h]
+
+/-! ### reports and slots -/
+
+def nReports (evs : List Ev) : Nat := (reportsOf evs).length
+
+theorem usedCount_set_some (slots : List (Option Bytes)) (i : Nat) (x : Bytes)
+    (h : slotUsed slots i = false) (hi : i < slots.length) :
+    ((slots.set i (some x)).filter Option.isSome).length = (slots.filter Option.isSome).length + 1 := by
+  induction slots generalizing i with
+  | nil => simp at hi
+  | cons a r ih =>
+    cases i with
+    | zero =>
+      simp only [slotUsed, List.getD_cons_zero] at h
+      cases a with
+      | none => simp
+      | some v => simp at h
+    | succ i =>
+      simp only [slotUsed, List.getD_cons_succ] at h
+      simp only [List.set_cons_succ, List.length_cons] at hi ⊢
+      have := ih i h (by omega)
+      cases a <;> simp [List.filter_cons, this]
+
+theorem usedCount_set_none (slots : List (Option Bytes)) (i : Nat) (out : Bytes)
+    (h : slots.getD i none = some out) :
+    ((slots.set i none).filter Option.isSome).length + 1 = (slots.filter Option.isSome).length := by
+  induction slots generalizing i with
+  | nil => simp at h
+  | cons a r ih =>
+    cases i with
+    | zero =>
+      simp only [List.getD_cons_zero] at h
+      subst h; simp
+    | succ i =>
+      simp only [List.getD_cons_succ] at h
+      have := ih i h
+      cases a <;> simp [List.filter_cons] <;> omega
+
+theorem usedCount_set_same (slots : List (Option Bytes)) (i : Nat) (out x : Bytes)
+    (h : slots.getD i none = some out) :
+    ((slots.set i (some x)).filter Option.isSome).length = (slots.filter Option.isSome).length := by
+  induction slots generalizing i with
+  | nil => simp at h
+  | cons a r ih =>
+    cases i with
+    | zero =>
+      simp only [List.getD_cons_zero] at h
+      subst h; simp
+    | succ i =>
+      simp only [List.getD_cons_succ] at h
+      have := ih i h
+      cases a <;> simp [List.filter_cons, this]
+
+/-- per-command balance of `docmd` (statement: `Props.C18_spawn_one_cmd`) -/
+theorem docmd_balance (st : St) (hl : st.slots.length = Nq.Gen.auto_spawn) :
+    nReports (docmd st).2 + usedCount (docmd st).1 = usedCount st + 1 ∧
+    (∀ d b, Ev.report d b ∈ (docmd st).2 → d = st.delnum ∧ textOK b = true) ∧
+    (docmd st).1.slots.length = st.slots.length := by
+  have tk := texts_ok
+  simp only [List.all_cons, List.all_nil, Bool.and_true, Bool.and_eq_true] at tk
+  obtain ⟨⟨⟨⟨t1, t2, t3, t4, t5, t6, t7, t8, t9, t10, t11, t12, _⟩, _⟩, _⟩, _⟩ := tk
+  rcases docmd_cases st with ⟨t, ht, h1⟩ | ⟨hc, j, _, h1⟩
+  · rw [h1]
+    refine ⟨by simp [nReports, reportsOf]; omega, ?_, rfl⟩
+    intro d b hb
+    simp only [List.mem_singleton, Ev.report.injEq] at hb
+    obtain ⟨hd, hb⟩ := hb
+    subst hd hb
+    simp only [List.mem_cons, List.not_mem_nil, or_false] at ht
+    rcases ht with h | h | h | h | h | h <;> subst h <;> exact ⟨rfl, by assumption⟩
+  · rcases h1 with ⟨t, h1, ht⟩ | ⟨_, h1⟩ | ⟨_, h1⟩
+    · rw [h1]
+      refine ⟨by simp [nReports, reportsOf, usedCount, popPlan]; omega, ?_, rfl⟩
+      intro d b hb
+      simp only [List.mem_cons, List.mem_singleton, Ev.report.injEq, List.not_mem_nil, or_false, reduceCtorEq, false_or] at hb
+      obtain ⟨hd, hb⟩ := hb
+      subst hd hb
+      rcases ht with ⟨_, h⟩ | ⟨_, h⟩ | ⟨_, h⟩ | ⟨_, h⟩ | ⟨_, h⟩ <;> subst h <;> exact ⟨rfl, by assumption⟩
+    · rw [h1]
+      refine ⟨by simp [nReports, reportsOf, usedCount, popPlan]; omega, ?_, rfl⟩
+      intro d b hb
+      simp only [List.mem_cons, List.mem_singleton, Ev.report.injEq, List.not_mem_nil, or_false, reduceCtorEq, false_or] at hb
+      obtain ⟨hd, hb⟩ := hb
+      subst hd hb
+      exact ⟨rfl, t12⟩
+    · rw [h1]
+      refine ⟨?_, by simp, by simp [popPlan]⟩
+      have := usedCount_set_some st.slots st.delnum [] hc.2.1 (by rw [hl]; exact hc.1)
+      simp [nReports, reportsOf, usedCount, popPlan, this]
+
+/-! ### `report()`: the body is a fixed text, or a letter followed by pieces of the child's output -/
+
+/-- the texts `report()` can print that do not come from the child -/
+def fixedTexts : List Bytes := [L_CRASHED, R_CRASHED, R_SOFT, R_HARD, R_NOOUTPUT] ++ lspawnTexts.map (·.2)
+
+theorem fixedTexts_ok : fixedTexts.all textOK = true := by decide
+
+theorem lookup_mem {β : Type} (k : Nat) (l : List (Nat × β)) (v : β) (h : l.lookup k = some v) : (k, v) ∈ l := by
+  induction l with
+  | nil => simp [List.lookup] at h
+  | cons p r ih =>
+    obtain ⟨a, b⟩ := p
+    by_cases hk : k = a
+    · subst hk; simp [List.lookup] at h; subst h; simp
+    · have : (k == a) = false := by simpa using hk
+      simp only [List.lookup, this] at h
+      exact List.mem_cons_of_mem _ (ih h)
+
+theorem cstr_nul (s : Bytes) : ∀ c ∈ cstr s, c ≠ 0 := by
+  induction s with
+  | nil => simp [cstr]
+  | cons x r ih =>
+    intro c hc
+    unfold cstr at hc ih
+    rw [List.takeWhile_cons] at hc
+    by_cases hx : (x != 0) = true
+    · simp only [hx, if_true, List.mem_cons] at hc
+      rcases hc with h | h
+      · subst h; simpa using hx
+      · exact ih c h
+    · simp [hx] at hc
+
+theorem cstr_prefix (s : Bytes) : cstr s <+: s := List.takeWhile_prefix _
+
+/-- a report body that is not one of the fixed texts -/
+def FromChild (body out : Bytes) : Prop :=
+  ∃ l a b, isLetter l = true ∧ body = [l] ++ a ++ b ∧ a <:+: out ∧ b <:+: out ∧ (∀ c ∈ a, c ≠ 0) ∧ (∀ c ∈ b, c ≠ 0)
+
+theorem nil_infix (out : Bytes) : ([] : Bytes) <:+: out := ⟨[], out, by simp⟩
+
+theorem lreport_shape (wstat : Nat) (out : Bytes) : lreport wstat out ∈ fixedTexts ∨ FromChild (lreport wstat out) out := by
+  unfold lreport
+  by_cases h1 : wstat % 128 ≠ 0
+  · left; rw [if_pos h1]; decide
+  · rw [if_neg h1]
+    cases h2 : lspawnTexts.lookup (wstat / 256) with
+    | some t =>
+      left
+      have := lookup_mem _ _ _ h2
+      simp only [fixedTexts, List.mem_append, List.mem_map]
+      exact Or.inr ⟨_, this, rfl⟩
+    | none =>
+      right
+      refine ⟨(lspawnLetters.lookup (wstat / 256)).getD lspawnDefault, cstr out, [], ?_, by simp, (cstr_prefix out).isInfix,
+        nil_infix out, cstr_nul out, by simp⟩
+      have tk := texts_ok
+      simp only [Bool.and_eq_true, List.all_eq_true] at tk
+      cases h3 : lspawnLetters.lookup (wstat / 256) with
+      | none => exact tk.2
+      | some l => exact tk.1.2 _ (lookup_mem _ _ _ h3)
+
+theorem rsLetter_letter (o : Int) : isLetter (rsLetter o) = true := by
+  unfold rsLetter
+  by_cases h1 : o = 1
+  · rw [if_pos h1]; decide
+  · rw [if_neg h1]
+    by_cases h0 : o = 0
+    · rw [if_pos h0]; decide
+    · rw [if_neg h0]; decide
+
+theorem rsText_shape (s : Bytes) (more : Bool) :
+    (rsText s more).1 <:+: s ∧ (rsText s more).2 <:+: s ∧ (∀ c ∈ (rsText s more).1, c ≠ 0) ∧ (∀ c ∈ (rsText s more).2, c ≠ 0) := by
+  have hsuf : s.drop 1 <:+ s := List.drop_suffix 1 s
+  have ha : cstr (s.drop 1) <:+: s := (cstr_prefix _).isInfix.trans hsuf.isInfix
+  unfold rsText
+  simp only []
+  split
+  · by_cases h5 : (cstr (s.drop 1)).length = (s.drop 1).length
+    · rw [if_pos h5]; exact ⟨nil_infix s, nil_infix s, by simp, by simp⟩
+    · rw [if_neg h5]; exact ⟨ha, nil_infix s, cstr_nul _, by simp⟩
+  · rename_i c v hd
+    have hv : v <:+ s := by
+      have h1 : c :: v <:+ s.drop 1 := by rw [← hd]; exact List.drop_suffix _ _
+      exact ((List.suffix_cons c v).trans h1).trans hsuf
+    by_cases hm : more = true ∧ (c = 90 ∨ c = 68 ∨ c = 75)
+    · rw [if_pos hm]; exact ⟨ha, (cstr_prefix v).isInfix.trans hv.isInfix, cstr_nul _, cstr_nul _⟩
+    · rw [if_neg hm]; exact ⟨ha, nil_infix s, cstr_nul _, by simp⟩
+
+theorem rreport_shape (wstat : Nat) (out : Bytes) : rreport wstat out ∈ fixedTexts ∨ FromChild (rreport wstat out) out := by
+  unfold rreport
+  by_cases h1 : wstat % 128 ≠ 0
+  · left; rw [if_pos h1]; decide
+  rw [if_neg h1]
+  by_cases h2 : wstat / 256 = R_SOFTCODE
+  · left; rw [if_pos h2]; decide
+  rw [if_neg h2]
+  by_cases h3 : wstat / 256 ≠ 0
+  · left; rw [if_pos h3]; decide
+  rw [if_neg h3]
+  by_cases h4 : out = []
+  · left; rw [if_pos h4]; decide
+  rw [if_neg h4]
+  right
+  obtain ⟨t1, t2, t3, t4⟩ := rsText_shape out (decide (rsResult none out ≤ rsOrr out))
+  exact ⟨_, _, _, rsLetter_letter _, rfl, t1, t2, t3, t4⟩
+
+theorem reportBody_shape (k : Kind) (wstat : Nat) (out : Bytes) :
+    reportBody k wstat out ∈ fixedTexts ∨ FromChild (reportBody k wstat out) out := by
+  cases k
+  · exact lreport_shape wstat out
+  · exact rreport_shape wstat out
+
+theorem reportBody_textOK (k : Kind) (wstat : Nat) (out : Bytes) : textOK (reportBody k wstat out) = true := by
+  rcases reportBody_shape k wstat out with h | ⟨l, a, b, hl, hb, _, _, ha0, hb0⟩
+  · exact List.all_eq_true.mp fixedTexts_ok _ h
+  · rw [hb]
+    have hl0 : l ≠ 0 := by
+      intro h0; rw [h0] at hl; simp [isLetter] at hl
+    have hmem : ¬ (0 ∈ [l] ++ a ++ b) := by
+      intro h
+      simp only [List.mem_append, List.mem_singleton] at h
+      rcases h with (h | h) | h
+      · exact hl0 h.symm
+      · exact ha0 0 h rfl
+      · exact hb0 0 h rfl
+    have hc : ([l] ++ a ++ b).contains 0 = false := by
+      cases hcc : ([l] ++ a ++ b).contains 0 with
+      | false => rfl
+      | true => exact absurd (by simpa using hcc) hmem
+    simp only [textOK, hc, Bool.not_false, Bool.and_true]
+    simpa using hl
+
+/-! ### the whole session: reports written + children running = commands completed -/
+
+/-- the framing automaton of `getcmd()` alone: next stage, and whether this byte completes a command -/
+def stageStep : Stage → Byte → Stage × Bool
+  | .delnum, _ => (.messid, false)
+  | .messid, c => if c = 0 then (.sender, false) else (.messid, false)
+  | .sender, c => if c = 0 then (.recip, false) else (.sender, false)
+  | .recip, c => if c = 0 then (.delnum, true) else (.recip, false)
+
+def stageAfter : Stage → Bytes → Stage
+  | s, [] => s
+  | s, c :: r => stageAfter (stageStep s c).1 r
+
+/-- number of commands completed by a byte string read from stage `s`: a command is one byte followed
+by three NUL-terminated fields -/
+def countCmds : Stage → Bytes → Nat
+  | _, [] => 0
+  | s, c :: r => (if (stageStep s c).2 then 1 else 0) + countCmds (stageStep s c).1 r
+
+theorem countCmds_append (s : Stage) (a b : Bytes) :
+    countCmds s (a ++ b) = countCmds s a + countCmds (stageAfter s a) b := by
+  induction a generalizing s with
+  | nil => simp [countCmds, stageAfter]
+  | cons c r ih => simp only [List.cons_append, countCmds, stageAfter, ih]; omega
+
+theorem stageAfter_append (s : Stage) (a b : Bytes) : stageAfter s (a ++ b) = stageAfter (stageAfter s a) b := by
+  induction a generalizing s with
+  | nil => rfl
+  | cons c r ih => simp only [List.cons_append, stageAfter, ih]
+
+theorem count_messid (m tail : Bytes) (h0 : ∀ c ∈ m, c ≠ 0) :
+    countCmds .messid (m ++ 0 :: tail) = countCmds .sender tail := by
+  induction m with
+  | nil => simp [countCmds, stageStep]
+  | cons c r ih =>
+    have hc : c ≠ 0 := h0 c (by simp)
+    simp [countCmds, stageStep, hc, ih (fun x hx => h0 x (by simp [hx]))]
+
+theorem count_sender (m tail : Bytes) (h0 : ∀ c ∈ m, c ≠ 0) :
+    countCmds .sender (m ++ 0 :: tail) = countCmds .recip tail := by
+  induction m with
+  | nil => simp [countCmds, stageStep]
+  | cons c r ih =>
+    have hc : c ≠ 0 := h0 c (by simp)
+    simp [countCmds, stageStep, hc, ih (fun x hx => h0 x (by simp [hx]))]
+
+theorem count_recip (m tail : Bytes) (h0 : ∀ c ∈ m, c ≠ 0) :
+    countCmds .recip (m ++ 0 :: tail) = 1 + countCmds .delnum tail := by
+  induction m with
+  | nil => simp [countCmds, stageStep]
+  | cons c r ih =>
+    have hc : c ≠ 0 := h0 c (by simp)
+    simp [countCmds, stageStep, hc, ih (fun x hx => h0 x (by simp [hx]))]
+
+/-- **the grammar**: one byte, then three NUL-free fields each ended by NUL, is exactly one command,
+and the reader is back at the start of a command -/
+theorem count_command (d : Byte) (m sd rc : Bytes) (hm : ∀ c ∈ m, c ≠ 0) (hs : ∀ c ∈ sd, c ≠ 0) (hr : ∀ c ∈ rc, c ≠ 0)
+    (rest : Bytes) :
+    countCmds .delnum (d :: (m ++ 0 :: (sd ++ 0 :: (rc ++ 0 :: rest)))) = 1 + countCmds .delnum rest := by
+  simp only [countCmds, stageStep]
+  rw [count_messid m _ hm, count_sender sd _ hs, count_recip rc _ hr]
+  simp
+
+theorem reportsOf_append (a b : List Ev) : reportsOf (a ++ b) = reportsOf a ++ reportsOf b := by
+  induction a with
+  | nil => rfl
+  | cons e a ih => cases e <;> simp [reportsOf, ih]
+
+theorem nReports_append (a b : List Ev) : nReports (a ++ b) = nReports a + nReports b := by
+  simp [nReports, reportsOf_append]
+
+/-- session invariant -/
+def SInv (st : St) : Prop := st.slots.length = Nq.Gen.auto_spawn
+
+theorem cstep_balance (st : St) (ch : Byte) (hi : SInv st) :
+    nReports (cstep st ch).2 + usedCount (cstep st ch).1 = usedCount st + (if (stageStep st.stage ch).2 then 1 else 0) ∧
+    (cstep st ch).1.stage = (stageStep st.stage ch).1 ∧ SInv (cstep st ch).1 ∧ (cstep st ch).1.reading = st.reading := by
+  unfold cstep
+  cases hst : st.stage with
+  | delnum => simp [stageStep, nReports, reportsOf, usedCount, SInv]; exact hi
+  | messid =>
+    by_cases hc : ch = 0 <;> simp [hc, stageStep, nReports, reportsOf, usedCount, SInv] <;> exact hi
+  | sender =>
+    by_cases hc : ch = 0 <;> simp [hc, stageStep, nReports, reportsOf, usedCount, SInv] <;> exact hi
+  | recip =>
+    by_cases hc : ch = 0
+    · subst hc
+      have hb := docmd_balance { st with recip := st.recip ++ [0] } hi
+      have hr : (docmd { st with recip := st.recip ++ [0] }).1.reading = st.reading := by
+        rcases docmd_cases { st with recip := st.recip ++ [0] } with ⟨t, _, h⟩ | ⟨_, j, _, h⟩
+        · rw [h]
+        · rcases h with ⟨t, h, _⟩ | ⟨_, h⟩ | ⟨_, h⟩ <;> rw [h] <;> rfl
+      simp only [hst] at hb hr
+      simp only [if_true, stageStep]
+      refine ⟨?_, ?_, ?_, ?_⟩
+      · simpa [usedCount] using hb.1
+      · trivial
+      · simp only [SInv]; rw [hb.2.2]; exact hi
+      · exact hr
+    · simp [hc, stageStep, nReports, reportsOf, usedCount, SInv]; exact hi
+
+theorem cfeed_balance (st : St) (bytes : Bytes) (hi : SInv st) :
+    nReports (cfeed st bytes).2 + usedCount (cfeed st bytes).1 = usedCount st + countCmds st.stage bytes ∧
+    (cfeed st bytes).1.stage = stageAfter st.stage bytes ∧ SInv (cfeed st bytes).1 ∧ (cfeed st bytes).1.reading = st.reading := by
+  induction bytes generalizing st with
+  | nil => simp [cfeed, countCmds, stageAfter, nReports, reportsOf]; exact hi
+  | cons c r ih =>
+    obtain ⟨b1, b2, b3, b4⟩ := cstep_balance st c hi
+    obtain ⟨i1, i2, i3, i4⟩ := ih (cstep st c).1 b3
+    simp only [cfeed, countCmds, stageAfter, nReports_append]
+    rw [b2] at i1 i2
+    refine ⟨by omega, i2, i3, i4.trans b4⟩
+
+/-- bytes of the script that arrive on descriptor 0 -/
+def inputOf : List Op → Bytes
+  | [] => []
+  | .cmd b :: r => b ++ inputOf r
+  | _ :: r => inputOf r
+
+theorem set_none_same (l : List (Option Bytes)) (i : Nat) (h : l.getD i none = none) : l.set i none = l := by
+  induction l generalizing i with
+  | nil => rfl
+  | cons a r ih =>
+    cases i with
+    | zero => simp only [List.getD_cons_zero] at h; subst h; rfl
+    | succ n => simp only [List.getD_cons_succ] at h; simp only [List.set_cons_succ, ih n h]
+
+theorem childExit_balance (k : Kind) (st : St) (slot wstat : Nat) (hi : SInv st) :
+    nReports (childExit k st slot wstat).2 + usedCount (childExit k st slot wstat).1 = usedCount st ∧
+    (childExit k st slot wstat).1.stage = st.stage ∧ SInv (childExit k st slot wstat).1 ∧
+    (childExit k st slot wstat).1.reading = st.reading ∧
+    (childExit k st slot wstat).1.slots = st.slots.set slot none := by
+  cases h : st.slots.getD slot none with
+  | none =>
+    have e : childExit k st slot wstat = (st, []) := by simp only [childExit, h]
+    rw [e]
+    exact ⟨by simp [nReports, reportsOf], rfl, hi, rfl, (set_none_same _ _ h).symm⟩
+  | some out =>
+    have e : childExit k st slot wstat =
+        ({ st with slots := st.slots.set slot none }, [.report slot (reportBody k wstat out)]) := by
+      simp only [childExit, h]
+    rw [e]
+    have := usedCount_set_none st.slots slot out h
+    refine ⟨?_, rfl, ?_, rfl, rfl⟩
+    · simp only [nReports, reportsOf, usedCount, List.length_cons, List.length_nil] at this ⊢
+      omega
+    · simp only [SInv, List.length_set]; exact hi
+
+theorem ostep_balance (k : Kind) (st : St) (op : Op) (hi : SInv st) (hr : st.reading = true) :
+    nReports (ostep k st op).2 + usedCount (ostep k st op).1 = usedCount st + countCmds st.stage (inputOf [op]) ∧
+    (ostep k st op).1.stage = stageAfter st.stage (inputOf [op]) ∧ SInv (ostep k st op).1 ∧ (ostep k st op).1.reading = true := by
+  cases op with
+  | cmd bytes =>
+    obtain ⟨c1, c2, c3, c4⟩ := cfeed_balance st bytes hi
+    simp only [ostep, hr, if_true, inputOf, List.append_nil]
+    exact ⟨c1, c2, c3, c4.trans hr⟩
+  | out slot bytes =>
+    simp only [inputOf, countCmds, stageAfter, Nat.add_zero]
+    cases h : st.slots.getD slot none with
+    | none =>
+      have e : ostep k st (.out slot bytes) = (st, []) := by simp only [ostep, h]
+      rw [e]; exact ⟨by simp [nReports, reportsOf], rfl, hi, hr⟩
+    | some out =>
+      have e : ostep k st (.out slot bytes) =
+          ({ st with slots := st.slots.set slot (some (accumulate k out bytes)) }, []) := by simp only [ostep, h]
+      rw [e]
+      have := usedCount_set_same st.slots slot out (accumulate k out bytes) h
+      refine ⟨?_, rfl, ?_, hr⟩
+      · simp only [nReports, reportsOf, usedCount, List.length_nil, Nat.zero_add]; exact this
+      · simp only [SInv, List.length_set]; exact hi
+  | exit slot wstat =>
+    obtain ⟨c1, c2, c3, c4, _⟩ := childExit_balance k st slot wstat hi
+    simp only [ostep, inputOf, countCmds, stageAfter, Nat.add_zero]
+    exact ⟨c1, c2, c3, c4.trans hr⟩
+
+theorem inputOf_cons (op : Op) (r : List Op) : inputOf (op :: r) = inputOf [op] ++ inputOf r := by
+  cases op <;> simp [inputOf]
+
+theorem orun_balance (k : Kind) (st : St) (ops : List Op) (hi : SInv st) (hr : st.reading = true) :
+    nReports (orun k st ops).2 + usedCount (orun k st ops).1 = usedCount st + countCmds st.stage (inputOf ops) ∧
+    SInv (orun k st ops).1 := by
+  induction ops generalizing st with
+  | nil => simp [orun, inputOf, countCmds, nReports, reportsOf]; exact hi
+  | cons op r ih =>
+    obtain ⟨o1, o2, o3, o4⟩ := ostep_balance k st op hi hr
+    obtain ⟨i1, i2⟩ := ih (ostep k st op).1 o3 o4
+    rw [inputOf_cons, countCmds_append]
+    simp only [orun, nReports_append]
+    rw [o2] at i1
+    exact ⟨by omega, i2⟩
+
+/-- slots `i … i+fuel-1` cleared -/
+def clearRange : List (Option Bytes) → Nat → Nat → List (Option Bytes)
+  | l, _, 0 => l
+  | l, i, f + 1 => clearRange (l.set i none) (i + 1) f
+
+theorem drain_balance (k : Kind) (st : St) (fuel i : Nat) (hi : SInv st) :
+    nReports (drain k st fuel i).2 + usedCount (drain k st fuel i).1 = usedCount st ∧
+    (drain k st fuel i).1.slots = clearRange st.slots i fuel := by
+  induction fuel generalizing st i with
+  | zero => simp [drain, clearRange, nReports, reportsOf]
+  | succ f ih =>
+    obtain ⟨c1, _, c3, _, c5⟩ := childExit_balance k st i 0 hi
+    obtain ⟨i1, i2⟩ := ih (childExit k st i 0).1 (i + 1) c3
+    simp only [drain, nReports_append, clearRange]
+    rw [c5] at i2
+    exact ⟨by omega, i2⟩
+
+theorem clearRange_cons (x : Option Bytes) (l : List (Option Bytes)) (i f : Nat) :
+    clearRange (x :: l) (i + 1) f = x :: clearRange l i f := by
+  induction f generalizing l i with
+  | zero => rfl
+  | succ f ih => simp only [clearRange, List.set_cons_succ, ih]
+
+theorem clearRange_all (l : List (Option Bytes)) : (clearRange l 0 l.length).filter Option.isSome = [] := by
+  induction l with
+  | nil => rfl
+  | cons a r ih =>
+    simp only [List.length_cons, clearRange, List.set_cons_zero, clearRange_cons]
+    simpa using ih
+
+theorem filter_replicate_none (n : Nat) :
+    (List.replicate n (none : Option Bytes)).filter Option.isSome = [] := by
+  induction n with
+  | zero => rfl
+  | succ n ih => simp [List.replicate_succ, ih]
+
+/-- from any start-of-command state with no child running -/
+theorem session_balance (k : Kind) (st0 : St) (script : List Op) (hi : SInv st0) (hr : st0.reading = true)
+    (hu : usedCount st0 = 0) :
+    nReports ((orun k st0 script).2 ++ (drain k (stopReading (orun k st0 script).1) Nq.Gen.auto_spawn 0).2)
+      = countCmds st0.stage (inputOf script) ∧
+    usedCount (drain k (stopReading (orun k st0 script).1) Nq.Gen.auto_spawn 0).1 = 0 := by
+  obtain ⟨o1, o2⟩ := orun_balance k st0 script hi hr
+  have h1 : SInv (stopReading (orun k st0 script).1) := o2
+  obtain ⟨d1, d2⟩ := drain_balance k _ Nq.Gen.auto_spawn 0 h1
+  have hz : usedCount (drain k (stopReading (orun k st0 script).1) Nq.Gen.auto_spawn 0).1 = 0 := by
+    unfold usedCount
+    rw [d2]
+    have hlen : Nq.Gen.auto_spawn = (orun k st0 script).1.slots.length := o2.symm
+    have hsl : (stopReading (orun k st0 script).1).slots = (orun k st0 script).1.slots := rfl
+    rw [hsl, hlen, clearRange_all]; rfl
+  refine ⟨?_, hz⟩
+  rw [nReports_append]
+  have e : usedCount (stopReading (orun k st0 script).1) = usedCount (orun k st0 script).1 := rfl
+  rw [e] at d1
+  omega
+
+theorem init_facts (plan : List Nat) :
+    SInv ({ plan := plan } : St) ∧ usedCount ({ plan := plan } : St) = 0 ∧
+    ({ plan := plan } : St).reading = true ∧ ({ plan := plan } : St).stage = .delnum := by
+  refine ⟨?_, ?_, rfl, rfl⟩
+  · unfold SInv
+    exact List.length_replicate
+  · unfold usedCount
+    have : ({ plan := plan } : St).slots = List.replicate Nq.Gen.auto_spawn none := rfl
+    rw [this, filter_replicate_none]; rfl
+
+theorem nReports_hello (n : Nat) (l : List Ev) : nReports (Ev.hello n :: l) = nReports l := rfl
+
+theorem runFrom_eq (k : Kind) (st0 : St) (script : List Op) :
+    runFrom k st0 script =
+      ((drain k (stopReading (orun k st0 script).1) Nq.Gen.auto_spawn 0).1,
+       Ev.hello Nq.Gen.auto_spawn ::
+         ((orun k st0 script).2 ++ (drain k (stopReading (orun k st0 script).1) Nq.Gen.auto_spawn 0).2)) := rfl
+
+theorem runFrom_balance (k : Kind) (st0 : St) (script : List Op) (hi : SInv st0) (hr : st0.reading = true)
+    (hu : usedCount st0 = 0) (hs : st0.stage = .delnum) :
+    nReports (runFrom k st0 script).2 = countCmds .delnum (inputOf script) ∧ usedCount (runFrom k st0 script).1 = 0 := by
+  obtain ⟨s1, s2⟩ := session_balance k st0 script hi hr hu
+  rw [hs] at s1
+  rw [runFrom_eq]
+  refine ⟨?_, s2⟩
+  show nReports (Ev.hello Nq.Gen.auto_spawn ::
+    ((orun k st0 script).2 ++ (drain k (stopReading (orun k st0 script).1) Nq.Gen.auto_spawn 0).2)) = _
+  rw [nReports_hello]
+  exact s1
+
+/-- **one report per command over a whole session** -/
+theorem run_balance (k : Kind) (plan : List Nat) (script : List Op) :
+    nReports (run k plan script).2 = countCmds .delnum (inputOf script) ∧ usedCount (run k plan script).1 = 0 := by
+  obtain ⟨hi, hu, hr, hs⟩ := init_facts plan
+  unfold run
+  exact runFrom_balance k _ script hi hr hu hs
+
+end Nq.Lemmas.SpawnL
